@@ -165,28 +165,28 @@ GnuWellFormed(class, little, hashbuf, symbuf, strbuf) ==
     IN /\ t.ok /\ t.nbucket > 0 /\ t.nbloom > 0
        /\ Val(t.hdr["nshift"]) # Huge /\ Val(t.hdr["nshift"]) < 32
        /\ LET first == Val(t.hdr["table_start_idx"])
-              H(i) == GnuHash(SymName(class, little, symbuf, strbuf, i))
-              B(i) == ModW(H(i), t.nbucket)
-              width == IF class = 32 THEN 32 ELSE 64
               lg == IF class = 32 THEN 5 ELSE 6
-              Filter(i) == LET bidx == (IF class = 32 THEN ShrVal(H(i), 5) ELSE ShrVal(H(i), 6)) % t.nbloom
-                           IN IF class = 32 THEN ZExt(U32At(t.bloom, bidx, little), 8) ELSE U64At(t.bloom, bidx, little)
           IN /\ first # Huge /\ first >= 1 /\ first <= nsyms
              /\ t.nchain = nsyms - first
-             /\ \A i \in first..(nsyms - 1) :
-                  /\ SymName(class, little, symbuf, strbuf, i) # <<-1>>
-                  /\ i > first => B(i - 1) <= B(i)                                   \* sorted by bucket
-                  /\ LET ch == U32At(t.chains, i - first, little)
-                         last == (i = nsyms - 1) \/ B(i + 1) # B(i)
-                     IN /\ ch[1] \div 2 = H(i)[1] \div 2 /\ ch[2] = H(i)[2] /\ ch[3] = H(i)[3] /\ ch[4] = H(i)[4]
-                        /\ (ch[1] % 2 = 1) <=> last
-                  /\ Bit(Filter(i), BitsAt(H(i), 0, lg)) = 1
-                  /\ Bit(Filter(i), BitsAt(H(i), Val(t.hdr["nshift"]), lg)) = 1
-             /\ \A b \in 0..(t.nbucket - 1) :
-                  LET members == { i \in first..(nsyms - 1) : B(i) = b }
-                      v == Val(U32At(t.buckets, b, little))
-                  IN IF members = {} THEN v = 0
-                     ELSE v = CHOOSE m \in members : \A x \in members : m <= x
+             /\ LET nm == [i \in first..(nsyms - 1) |-> SymName(class, little, symbuf, strbuf, i)]
+                    hs == [i \in first..(nsyms - 1) |-> GnuHash(nm[i])]             \* evaluated once
+                    bs == [i \in first..(nsyms - 1) |-> ModW(hs[i], t.nbucket)]
+                    Filter(i) == LET bidx == (IF class = 32 THEN ShrVal(hs[i], 5) ELSE ShrVal(hs[i], 6)) % t.nbloom
+                                 IN IF class = 32 THEN ZExt(U32At(t.bloom, bidx, little), 8) ELSE U64At(t.bloom, bidx, little)
+                IN /\ \A i \in first..(nsyms - 1) :
+                        /\ nm[i] # <<-1>>
+                        /\ i > first => bs[i - 1] <= bs[i]                              \* grouped by bucket, ascending
+                        /\ LET ch == U32At(t.chains, i - first, little)
+                               last == (i = nsyms - 1) \/ bs[i + 1] # bs[i]
+                           IN /\ ch[1] \div 2 = hs[i][1] \div 2 /\ ch[2] = hs[i][2] /\ ch[3] = hs[i][3] /\ ch[4] = hs[i][4]
+                              /\ (ch[1] % 2 = 1) <=> last
+                        /\ Bit(Filter(i), BitsAt(hs[i], 0, lg)) = 1
+                        /\ Bit(Filter(i), BitsAt(hs[i], Val(t.hdr["nshift"]), lg)) = 1
+                   /\ \A b \in 0..(t.nbucket - 1) :
+                        LET members == { i \in first..(nsyms - 1) : bs[i] = b }
+                            v == Val(U32At(t.buckets, b, little))
+                        IN IF members = {} THEN v = 0
+                           ELSE v = CHOOSE m \in members : \A x \in members : m <= x
 
 \* well-formedness per the gABI: every symbol 1..nsyms-1 is on the chain of its bucket
 RECURSIVE OnChain(_, _, _, _, _)
